@@ -1,7 +1,9 @@
 #!/bin/sh
-# extra stages of C04 (thorough tier only): see stages/miri.sh and stages/fuzz.sh
+# extra stages of C04 (thorough tier only): see stages/fuzz.sh and stages/miri.sh
 [ "$1" = "thorough" ] || exit 0
 ROOT=$(cd "$(dirname "$0")/.." && pwd)
 rc=0
+"$ROOT/stages/fuzz.sh" C04 c04_cast 2000000 512 || rc=$?
+[ $rc -eq 1 ] && exit 1
 "$ROOT/stages/miri.sh" C04 || rc=$?
 exit $rc
